@@ -27,6 +27,7 @@ import (
 	"github.com/tidwall/gjson"
 
 	"github.com/olive-io/bpmn/schema"
+	"github.com/olive-io/bpmn/v2/internal/verifhook"
 	"github.com/olive-io/bpmn/v2/pkg/data"
 	"github.com/olive-io/bpmn/v2/pkg/errors"
 	"github.com/olive-io/bpmn/v2/pkg/event"
@@ -393,6 +394,7 @@ func (t *taskTrace) Do(options ...DoOption) {
 	}
 
 	response := newDoOption(options...)
+	verifhook.Point("tasktrace.do.before_send")
 	t.forward <- *response
 }
 
@@ -429,6 +431,7 @@ func (t *taskTrace) process() {
 		rsp := newDoOption(DoWithErr(errors.TaskExecError{Id: tid, Reason: "timed out"}))
 		t.response <- *rsp
 	case rsp := <-t.forward:
+		verifhook.Point("tasktrace.process.forwarding")
 		t.response <- rsp
 	}
 
